@@ -660,7 +660,14 @@ static void Disassemble_68(
             pSymbolPrefix = NULL;
         }
         pOp = MakeSymbolic(OpAddr, 2, pSymbolPrefix, NumBuf, sizeof(NumBuf));
-        as_snprintf(pInfo->SrcLine, sizeof(pInfo->SrcLine), "%s\t%s", pOpcode->Memo, pOp);
+        /* an address below $100 would be assembled in direct mode where the
+           instruction has one: keep extended addressing with the '>' prefix */
+        as_snprintf(
+                pInfo->SrcLine, sizeof(pInfo->SrcLine), "%s\t%s%s", pOpcode->Memo,
+                (!Data[0] && (Opcode >= 0x20) && (OpcodeList[Opcode - 0x20].Type == eDirect))
+                        ? ">"
+                        : "",
+                pOp);
         break;
     case eImmediate:
         if (!RetrieveData(Address + 1, Data, pOpcode->OpSize + 1)) {
